@@ -34,7 +34,24 @@ func TestMain(m *testing.M) { vstat.Main(m) }
 
 // wired builds the server the way Run() does for the given command line.
 func wired(args []string) func(ctx context.Context, b *rig.Backend) *proxyserver.Server {
+	return wiredEnv(args, nil)
+}
+
+// wiredEnv: like wired, with environment variables in force while the flags are defined (every flag's
+// default comes from its environment variable, "equivalent to $NAME" in the flag's help text).
+func wiredEnv(args []string, env map[string]string) func(ctx context.Context, b *rig.Backend) *proxyserver.Server {
 	return func(ctx context.Context, b *rig.Backend) *proxyserver.Server {
+		for k, v := range env {
+			old, had := os.LookupEnv(k)
+			os.Setenv(k, v)
+			defer func(k, old string, had bool) {
+				if had {
+					os.Setenv(k, old)
+				} else {
+					os.Unsetenv(k)
+				}
+			}(k, old, had)
+		}
 		for _, l := range []interface{ SetOutput(io.Writer) }{ProxyServerLog, HTTPServerLog, PrometheusLog, ReverseProxyLog, FingerprintLog, CertWatcherLog, DefaultLog} {
 			l.SetOutput(io.Discard)
 		}
@@ -62,6 +79,7 @@ type idleScript struct {
 	ALPN   string `json:"alpn"`
 	Mode   string `json:"mode"` // idle, stall
 	NReq   int    `json:"nreq"`
+	ViaEnv bool   `json:"via_env"` // through $TIMEOUT_HTTP_IDLE / $TIMEOUT_TLS_HANDSHAKE instead of the flags
 }
 
 var colC11 = vstat.New("C11", "c11.wiring")
@@ -72,14 +90,18 @@ func TestVerifWiringC11(t *testing.T) {
 	vstat.Run(t, vstat.Spec[idleScript]{Col: colC11, Quick: 300, Thorough: 5000,
 		Gen: func(t *rapid.T) idleScript {
 			return idleScript{IdleMs: rapid.SampledFrom([]int64{0, 50, 1000, 180000}).Draw(t, "idle"), HSMs: rapid.SampledFrom([]int64{5, 1000, 10000}).Draw(t, "hs"),
-				ALPN: rapid.SampledFrom([]string{"h2", "http/1.1", ""}).Draw(t, "alpn"), Mode: rapid.SampledFrom([]string{"idle", "idle", "stall", "stall-partial"}).Draw(t, "mode"), NReq: rapid.IntRange(1, 3).Draw(t, "nreq")}
+				ALPN: rapid.SampledFrom([]string{"h2", "http/1.1", ""}).Draw(t, "alpn"), Mode: rapid.SampledFrom([]string{"idle", "idle", "stall", "stall-partial"}).Draw(t, "mode"), NReq: rapid.IntRange(1, 3).Draw(t, "nreq"), ViaEnv: rapid.Bool().Draw(t, "env")}
 		},
 		Exec: func(s idleScript) *vstat.Violation {
 			var viol *vstat.Violation
 			idle, hs := time.Duration(s.IdleMs)*time.Millisecond, time.Duration(s.HSMs)*time.Millisecond
 			cls := ""
 			msg := rig.Bubble(t, func() {
-				p := rig.StartProxy(rig.ProxyOpts{Build: wired([]string{"-timeout-http-idle", idle.String(), "-timeout-tls-handshake", hs.String()})})
+				build := wired([]string{"-timeout-http-idle", idle.String(), "-timeout-tls-handshake", hs.String()})
+				if s.ViaEnv {
+					build = wiredEnv(nil, map[string]string{"TIMEOUT_HTTP_IDLE": idle.String(), "TIMEOUT_TLS_HANDSHAKE": hs.String()})
+				}
+				p := rig.StartProxy(rig.ProxyOpts{Build: build})
 				plan := rig.ConnPlan{Kind: "serve", ALPN: s.ALPN, NReq: s.NReq, Limit: -1}
 				if s.Mode == "stall" {
 					plan = rig.ConnPlan{Kind: "silent", Limit: -1}
@@ -144,6 +166,7 @@ type prioScript struct {
 	Limit   int  `json:"limit"` // -1: flag not given (default 10000)
 	NFrames int  `json:"nframes"`
 	NoFlags bool `json:"no_flags"` // DefaultHeaderInjectors with CLI flags never initialised -> unlimited
+	ViaEnv  bool `json:"via_env"`  // through $MAX_H2_PRIORITY_FRAMES instead of the flag
 }
 
 var colC03 = vstat.New("C03", "c03.wiring")
@@ -153,7 +176,7 @@ func TestVerifWiringC03(t *testing.T) {
 	vstat.Run(t, vstat.Spec[prioScript]{Col: colC03, Quick: 300, Thorough: 5000,
 		Gen: func(t *rapid.T) prioScript {
 			n := rapid.IntRange(0, 6).Draw(t, "n")
-			return prioScript{Limit: rapid.SampledFrom([]int{-1, 0, 1, max(n-1, 0), n, n + 1, 10000}).Draw(t, "limit"), NFrames: n}
+			return prioScript{Limit: rapid.SampledFrom([]int{-1, 0, 1, max(n-1, 0), n, n + 1, 10000}).Draw(t, "limit"), NFrames: n, ViaEnv: rapid.Bool().Draw(t, "env")}
 		},
 		Exec: func(s prioScript) *vstat.Violation {
 			var got, want string
@@ -161,11 +184,16 @@ func TestVerifWiringC03(t *testing.T) {
 			msg := rig.Bubble(t, func() {
 				var args []string
 				lim := int64(10000)
+				env := map[string]string{}
 				if s.Limit >= 0 {
-					args = []string{"-max-h2-priority-frames", fmt.Sprint(s.Limit)}
+					if s.ViaEnv {
+						env["MAX_H2_PRIORITY_FRAMES"] = fmt.Sprint(s.Limit)
+					} else {
+						args = []string{"-max-h2-priority-frames", fmt.Sprint(s.Limit)}
+					}
 					lim = int64(s.Limit)
 				}
-				p := rig.StartProxy(rig.ProxyOpts{Build: wired(args)})
+				p := rig.StartProxy(rig.ProxyOpts{Build: wiredEnv(args, env)})
 				defer p.Stop()
 				raw, _, _ := p.Ln.Dial(rig.DialOpts{})
 				c, err := rig.Handshake(raw, rig.ClientOpts{StdALPN: []string{"h2"}})
@@ -210,8 +238,9 @@ func TestVerifWiringC03(t *testing.T) {
 // ---- C15 / C09 / C08: -enable-kubernetes-probe, -preserve-host ------------------------------------
 
 type hostScript struct {
-	Probe    string `json:"probe"`    // "", "true", "false"
-	Preserve string `json:"preserve"` // "", "true", "false"
+	Probe    string `json:"probe"`    // "", "true", "false" (any letter case)
+	Preserve string `json:"preserve"` // "", "true", "false" (any letter case)
+	ViaEnv   bool   `json:"via_env"`  // configured through $ENABLE_KUBERNETES_PROBE / $PRESERVE_HOST instead of the flags
 	ALPN     string `json:"alpn"`
 	UA       string `json:"ua"`
 }
@@ -222,7 +251,8 @@ func TestVerifWiringC15(t *testing.T) {
 	rig.Certs()
 	vstat.Run(t, vstat.Spec[hostScript]{Col: colC15, Quick: 300, Thorough: 5000,
 		Gen: func(t *rapid.T) hostScript {
-			return hostScript{Probe: rapid.SampledFrom([]string{"", "true", "false"}).Draw(t, "probe"), Preserve: rapid.SampledFrom([]string{"", "true", "false"}).Draw(t, "preserve"),
+			spell := []string{"", "true", "false", "True", "False", "TRUE", "FALSE"}
+			return hostScript{Probe: rapid.SampledFrom(spell).Draw(t, "probe"), Preserve: rapid.SampledFrom(spell).Draw(t, "preserve"), ViaEnv: rapid.Bool().Draw(t, "env"),
 				ALPN: rapid.SampledFrom([]string{"h2", "http/1.1"}).Draw(t, "alpn"), UA: rapid.SampledFrom([]string{"kube-probe/1.29", "curl/8", "x kube-probe/1"}).Draw(t, "ua")}
 		},
 		Exec: func(s hostScript) *vstat.Violation {
@@ -231,13 +261,22 @@ func TestVerifWiringC15(t *testing.T) {
 			var fail string
 			msg := rig.Bubble(t, func() {
 				var args []string
+				env := map[string]string{}
 				if s.Probe != "" {
-					args = append(args, "-enable-kubernetes-probe="+s.Probe)
+					if s.ViaEnv {
+						env["ENABLE_KUBERNETES_PROBE"] = s.Probe
+					} else {
+						args = append(args, "-enable-kubernetes-probe="+s.Probe)
+					}
 				}
 				if s.Preserve != "" {
-					args = append(args, "-preserve-host="+s.Preserve)
+					if s.ViaEnv {
+						env["PRESERVE_HOST"] = s.Preserve
+					} else {
+						args = append(args, "-preserve-host="+s.Preserve)
+					}
 				}
-				p := rig.StartProxy(rig.ProxyOpts{Build: wired(args)})
+				p := rig.StartProxy(rig.ProxyOpts{Build: wiredEnv(args, env)})
 				defer p.Stop()
 				cc, err := rig.Connect(p, []string{s.ALPN}, nil)
 				if err != nil {
@@ -253,14 +292,14 @@ func TestVerifWiringC15(t *testing.T) {
 				colC15.Discard()
 				return nil
 			}
-			probeOn := s.Probe != "false" // default true
+			probeOn := strings.ToLower(s.Probe) != "false" // default true
 			wantLocal := probeOn && strings.HasPrefix(s.UA, "kube-probe/")
 			if wantLocal != (len(reqs) == 0) || wantLocal != (string(ex.Body) == "OK") {
 				return vstat.Violf("wiring:enable-kubernetes-probe|wrong-routing", "%+v: forwarded=%d body=%q", s, len(reqs), ex.Body)
 			}
 			if !wantLocal {
 				wantHost := "backend.internal:8080"
-				if s.Preserve == "true" {
+				if strings.ToLower(s.Preserve) == "true" {
 					wantHost = "client.example"
 				}
 				if reqs[0].Host != wantHost {
@@ -270,7 +309,7 @@ func TestVerifWiringC15(t *testing.T) {
 					return vstat.Violf("wiring:xfp|not-https", "%+v: X-Forwarded-Proto %q", s, v)
 				}
 			}
-			colC15.Case(fmt.Sprintf("%+v", s), true, s, "probe:"+s.Probe, "preserve:"+s.Preserve)
+			colC15.Case(fmt.Sprintf("%+v", s), true, s, "probe:"+strings.ToLower(s.Probe), "preserve:"+strings.ToLower(s.Preserve), fmt.Sprintf("via-env:%v", s.ViaEnv))
 			return nil
 		}})
 }
